@@ -458,5 +458,5 @@ def body_replay(case, ctx):
 
 
 def parts():
-    return [Part("histories", body_replay, strategy=make_machine, stateful=True, quick=260, thorough=1200,
-                 steps_quick=16, steps_thorough=30)]
+    return [Part("histories", body_replay, strategy=make_machine, stateful=True, quick=260, thorough=600,
+                 steps_quick=16, steps_thorough=22)]
